@@ -32,29 +32,37 @@ def cfg_offset(cfg):
 
 
 def render_instant(rng, ns, cfg, allow_date=True):
-    """an ISO-8601 text of the instant `ns` in one of the three notations of the grammar"""
+    """an ISO-8601 text of the instant `ns` in one of the three notations of the grammar, and its lexical
+    content (token) for the model's own timestamp resolution"""
     coff = cfg_offset(cfg)
     r = rng.random()
     if r < 0.35:
-        off, suffix = coff, ""
+        off, suffix, zone = coff, "", None
     elif r < 0.55:
-        off, suffix = 0, "Z"
+        off, suffix, zone = 0, "Z", "Z"
     else:
         off = rng.choice(OFFSETS)
         suffix = common.fmt_off(off)
+        zone = [off < 0, abs(off) // 3600, (abs(off) % 3600) // 60]
+        if off == 0 and rng.random() < 0.5:
+            suffix, zone = "-00:00", [True, 0, 0]
     local = ns + off * 10 ** 9
     secs, frac = divmod(local, 10 ** 9)
     dt = common.EPOCH + datetime.timedelta(seconds=secs)
+    tok = {"y": dt.year, "m": dt.month, "d": dt.day, "time": None, "zone": zone}
     if suffix == "" and allow_date and frac == 0 and (dt.hour, dt.minute, dt.second) == (0, 0, 0) and rng.random() < 0.6:
-        return "%04d-%02d-%02d" % (dt.year, dt.month, dt.day)
+        return "%04d-%02d-%02d" % (dt.year, dt.month, dt.day), tok
     text = "%04d-%02d-%02dT%02d:%02d:%02d" % (dt.year, dt.month, dt.day, dt.hour, dt.minute, dt.second)
+    digits = None
     if frac:
         digits = ("%09d" % frac).rstrip("0")
         digits += "0" * rng.randrange(0, 10 - len(digits)) if rng.random() < 0.3 else ""
-        text += "." + digits
     elif rng.random() < 0.15:
-        text += "." + "0" * rng.randrange(1, 10)
-    return text + suffix
+        digits = "0" * rng.randrange(1, 10)
+    if digits is not None:
+        text += "." + digits
+    tok["time"] = [dt.hour, dt.minute, dt.second, digits]
+    return text + suffix, tok
 
 
 def fmt_full_utc(ns):
@@ -229,12 +237,15 @@ class C07(PropBase):
         for ns, b, r, t in entries:
             if ns == TS_MAX_NS or ns == TS_MAX_NS - 1:
                 text = "9999-12-30T22:00:00.%09dZ" % (ns % 10 ** 9)
+                tok = {"y": 9999, "m": 12, "d": 30, "time": [22, 0, 0, "%09d" % (ns % 10 ** 9)], "zone": "Z"}
             else:
-                text = render_instant(rng, ns, cfg)
-            prices.append({"ns": str(ns), "base": b, "rate": r, "target": t, "text": text})
+                text, tok = render_instant(rng, ns, cfg)
+            prices.append({"ns": str(ns), "base": b, "rate": r, "target": t, "text": text, "tok": tok})
         pcfg = {"db": render_pricedb(rng, prices), "lookup": lookup}
+        before = None
         if before_ns is not None:
-            pcfg["before"] = render_instant(rng, before_ns, cfg)
+            pcfg["before"], btok = render_instant(rng, before_ns, cfg)
+            before = {"ns": str(before_ns), "tok": btok}
         cfg["price"] = pcfg
         if kind == "config-error" and entries:
             rc = None                                # conversion without a report commodity is rejected
@@ -242,15 +253,21 @@ class C07(PropBase):
             cfg["report_commodity"] = rc
         text = common.render_journal(txns, common.gen_layout(rng))
         return {"op": "price", "kind": kind, "cfg": cfg, "txns": txns, "text": text, "prices": prices,
-                "lookup": lookup, "before_ns": (str(before_ns) if before_ns is not None else None),
+                "lookup": lookup, "before_ns": (str(before_ns) if before_ns is not None else None), "before": before,
                 "report_commodity": rc}
 
     def impl_case(self, case):
         return {k: case[k] for k in ("op", "cfg", "text") if k in case}
 
     def model_case(self, case):
-        c = {k: case.get(k) for k in ("op", "txns", "lookup", "before_ns", "report_commodity")}
-        c["prices"] = [{k: e[k] for k in ("ns", "base", "rate", "target")} for e in case["prices"]]
+        c = {k: case.get(k) for k in ("op", "txns", "lookup", "report_commodity")}
+        # the model resolves the timestamp tokens itself (Model/Time.lean); corpus cases may carry instants only
+        c["prices"] = [{k: e[k] for k in ("ns", "base", "rate", "target", "tok") if k in e} for e in case["prices"]]
+        if case.get("before") is not None:
+            c["before"] = case["before"]
+        elif case.get("before_ns") is not None:
+            c["before"] = {"ns": case["before_ns"]}
+        c["tz_offset_s"] = cfg_offset(case.get("cfg", {}))
         mc = dict(case.get("cfg", {}))
         c["cfg"] = model_cfg(mc)
         return c
@@ -510,9 +527,9 @@ class C07(PropBase):
 
     def trusted_base(self):
         return super().trusted_base() + [
-            "the model reads price entries as (instant ns, base, rate, target); the price-file grammar and jiff's timestamp "
-            "resolution are exercised on the implementation side only (the python renderer computes the instant independently "
-            "and the oracle compares it with the implementation's loaded db)",
+            "the model reads price entries as (timestamp token, base, rate, target) and resolves the token itself "
+            "(Model/Time.lean resolveTs, fixed-offset journal zones); the price-file grammar (text -> token) is exercised on the "
+            "implementation side only; the oracle uses the instant computed independently by the python renderer",
             "rust_decimal multiplication outside the exact domain (model answers UNDEF, case skipped)"]
 
     def assumptions(self):
